@@ -211,7 +211,35 @@ func bitsLen(x *Term) *Term {
 
 var errorIface = types.Universe.Lookup("error").Type().Underlying().(*types.Interface)
 
+// sort.Slice / SliceStable / Sort-by-closure model: insertion sort calling the interpreted less function back;
+// every comparison on symbolic data is an ordinary (forking) branch. For elements that compare equal the
+// order is unspecified in Go; the stable order is one of the allowed ones.
+func sortSliceIntrinsic(in *Interp, fn *ssa.Function, a []Value) Value {
+	ifc, ok := a[0].(Iface)
+	if !ok {
+		in.fail("sort.Slice of non-interface")
+	}
+	sl, ok := in.force(ifc.V).(Slice)
+	if !ok {
+		in.fail("sort.Slice of %T", ifc.V)
+	}
+	less := a[1]
+	n := len(sl.A)
+	for i := 1; i < n; i++ {
+		for j := i; j > 0; j-- {
+			c := in.call(less, []Value{BVConstI(64, int64(j)), BVConstI(64, int64(j-1))}).(*Term)
+			if !in.ctx.Branch(c) {
+				break
+			}
+			sl.A[j], sl.A[j-1] = sl.A[j-1], sl.A[j]
+		}
+	}
+	return nil
+}
+
 func init() {
+	intrinsics["sort.Slice"] = sortSliceIntrinsic
+	intrinsics["sort.SliceStable"] = sortSliceIntrinsic
 	// math on concrete operands is executed natively; symbolic floats in these functions are not encodable
 	m1 := map[string]func(float64) float64{"Log2": math.Log2, "Ceil": math.Ceil, "Floor": math.Floor, "Sqrt": math.Sqrt, "Log": math.Log, "Exp": math.Exp,
 		"Atan": math.Atan, "Abs": math.Abs, "Trunc": math.Trunc, "Round": math.Round, "Log10": math.Log10}
